@@ -83,6 +83,18 @@ def families():
                    ("cast-string-time", "cast(Me_1, time)"), ("hamming-mismatch", 'hamming(Me_1, "abc")'), ("match-bad-regex", 'match_characters(Me_1, "[a-")'),
                    ("replace-empty", 'replace(Me_1, "", "x")'), ("length-null", "length(Me_1) / Me_2")):
         add(fam, "component", f"DS_r <- DS_1[calc Me_3 := {e}];", comps=strs, rows=rows_str)
+    # unparsable text whose wording resembles the patterns the error mapper looks for in DuckDB messages
+    wordy = [N, ("Me_1", "String", "Measure", True)]
+    rows_wordy = [(1, "no update"), (2, "timestamp x"), (3, "12"), (4, 'say "date"'), (5, "out of range")]
+    for tgt in ("integer", "number", "date", "time_period", "boolean"):
+        add(f"cast-wordy-text-{tgt}", "component", f"DS_r <- DS_1[calc Me_3 := cast(Me_1, {tgt})];", comps=wordy, rows=rows_wordy)
+        add(f"cast-wordy-text-{tgt}", "dataset", f"DS_r <- cast(DS_1, {tgt});", comps=wordy, rows=rows_wordy)
+    dfar = [N, ("Me_1", "Date", "Measure", True)]
+    rows_dfar = [(1, "2020-02-29"), (2, "9999-12-31"), (3, "1800-01-01"), (4, None)]
+    for fam, e in (("dateadd-far-years", 'dateadd(Me_1, 300000, "A")'), ("dateadd-far-months", 'dateadd(Me_1, 40000000, "M")'), ("dateadd-far-days", 'dateadd(Me_1, -900000000, "D")'),
+                   ("dateadd-far-weeks", 'dateadd(Me_1, 90000000, "W")')):
+        add(fam, "component", f"DS_r <- DS_1[calc Me_3 := {e}];", comps=dfar, rows=rows_dfar)
+        add(fam, "dataset", f"DS_r <- {e.replace('Me_1', 'DS_1')};", comps=dfar, rows=rows_dfar)
     tp = [("Id_1", "Time_Period", "Identifier", False), ("Me_1", "Number", "Measure", True)]
     for ind, rows in (("A", [("9998", 1.0), ("9999", 2.0)]), ("Q", [("9999Q3", 1.0), ("9999Q4", 2.0)]), ("M", [("9999M11", 1.0), ("9999M12", 2.0)]),
                       ("W", [("2020W52", 1.0), ("2020W53", 2.0)]), ("D", [("9999D364", 1.0), ("9999D365", 2.0)]), ("Alow", [("1800", 1.0), ("1801", 2.0)])):
